@@ -18,7 +18,14 @@ static QAD *qbv_new(uint32_t len, uint32_t hint) { struct qb *s = malloc(sizeof(
   REF(&s->h) = 1; s->h.f1 = len; s->h.f2 = QB_CAP + 1; s->h.f3 = QB_OFF; s->hint = umin(hint, QB_CAP); VP_REG_BLK(s, 1); return &s->h; }
 static int qbv_private(QAD *d) { return REF(d) == 1 && VP_BLK_DYN(d); }
 static void vpl_x_copy(QAD *d, QAD *o, uint32_t n) { for (uint32_t i = 0; i < XHINT(o) && i < QB_CAP; i++) { if (i >= n) break; BD(d)[i] = XBYTES(o)[i]; } }
-static QAD *qbv_copy(QAD *o, uint32_t newlen) { uint32_t h = XHINT(o); QAD *d = qbv_new(newlen, newlen > h ? newlen : h); vpl_x_copy(d, o, umin(o->f1, newlen)); return d; }
+/* copy of a block with a new size: model blocks are copied by ONE struct assignment (no per-byte loop, no per-byte pointer checks) */
+static QAD *qbv_copy(QAD *o, uint32_t newlen) { uint32_t h = XHINT(o);
+  if (o->f3 == QB_OFF) { struct qb *s = malloc(sizeof(struct qb)); ASSUME(s != 0); *s = *(struct qb*)o; REF(&s->h) = 1; s->h.f1 = newlen; s->h.f2 = QB_CAP + 1; s->isnum = 0; s->b64 = 0;
+    if (s->hint < newlen) s->hint = umin(newlen, QB_CAP); VP_REG_BLK(s, 1); return &s->h; }
+  QAD *d = qbv_new(newlen, newlen > h ? newlen : h); vpl_x_copy(d, o, umin(o->f1, newlen)); return d; }
+/* equality without early exit (no guard growth) */
+static int vpl_x_eq(QAD *a, QAD *b) { if (a->f1 != b->f1) return 0; uint8_t same = 1;
+  for (uint32_t i = 0; i < XHINT(a) && i < XHINT(b) && i < QB_CAP; i++) { if (i >= a->f1) break; same &= (uint8_t)(XBYTES(a)[i] == XBYTES(b)[i]); } return same; }
 static void vpl_x_fill(QAD *d, uint8_t c, uint32_t n) { for (uint32_t i = 0; i < QB_CAP; i++) { if (i >= n) break; BD(d)[i] = c; } }
 void _ZN10QByteArrayC1Eic(char *self, uint32_t n, uint8_t c) { if ((int32_t)n <= 0) { *(QAD**)self = qbv_new(0, 0); return; }
   QAD *d = qbv_new(n, n); if (c != 0) { ASSERT(n <= QB_CAP, "QByteArray(n, c != 0) above the model capacity"); vpl_x_fill(d, c, n); } *(QAD**)self = d; }
@@ -61,6 +68,9 @@ void vp_fresh_bytes(char *out, uint32_t minlen, uint32_t maxlen) { uint32_t len 
   QAD *d = qbv_new(len, maxlen);
   for (uint32_t i = 0; i < maxlen; i++) BD(d)[i] = vp_u8();
   if (minlen != maxlen) BD(d)[len] = 0; *(QAD**)out = d; }
+/* exactly len UTF-16 units in 0x01..0x7f (ASCII without NUL) */
+void vp_fresh_ascii(char *out, uint32_t len) { ASSERT(len <= 8, "vp_fresh_ascii bound"); QAD *d = qs_new(len, len);
+  for (uint32_t i = 0; i < len; i++) { uint8_t c = vp_u8(); ASSUME(c >= 1 && c < 0x80); SD(d)[i] = c; } *(QAD**)out = d; }
 void vp_set_byte(char *ba, uint32_t i, uint8_t v) { QAD *d = *(QAD**)ba; ASSERT(i < d->f1 && i < QB_CAP && qbv_private(d), "vp_set_byte"); BD(d)[i] = v; }
 uint8_t vp_byte_at(char *ba, uint32_t i) { QAD *d = *(QAD**)ba; if (i >= d->f1 || i >= QB_CAP) return 0; return XBYTES(d)[i]; }
 uint8_t vp_bytes_same(char *a, char *b) { return qb_eq(*(QAD**)a, *(QAD**)b); }
